@@ -368,10 +368,11 @@ const (
 // the budget, at a rate <= MaxFeeRate and <= the ceiling, never below the
 // previously published rate, the first one at no less than the relay floor,
 // and from one block before the deadline on at the ceiling.
-func VerifC18Publish() { c18Publish(c18PubMain, 1) }
+func VerifC18Publish() { c18Publish(c18PubMain, 0) }
 
-// VerifC18PublishT: thorough tier, up to two fee-related mempool rejections.
-func VerifC18PublishT() { c18Publish(c18PubMain, 2) }
+// VerifC18PublishT: thorough tier, additionally one fee-related mempool
+// rejection (createRBFCompliantTx's Increment loop) per flow.
+func VerifC18PublishT() { c18Publish(c18PubMain, 1) }
 
 // VerifC18FindPublishAboveMax: the same flow on the complementary region. On
 // the unchanged tree this reports the CANDIDATE FINDING of NOTES.md at the
@@ -379,6 +380,13 @@ func VerifC18PublishT() { c18Publish(c18PubMain, 2) }
 func VerifC18FindPublishAboveMax() { c18Publish(c18PubFinding, 0) }
 
 func c18Publish(region int, maxRejects int) {
+	reach := func(label string) {
+		// reach labels (replayed witnesses must pass every assertion) only
+		// on the main region
+		if region == c18PubMain {
+			vReach(label)
+		}
+	}
 	// integer overflow inside prepareSweepTx / FeeForWeight is an obligation in
 	// VerifC18Create (arbitrary rate); not repeated here
 	c18PubConfig(false)
@@ -453,21 +461,25 @@ func c18Publish(region int, maxRejects int) {
 	}
 	w.onPub = func(tx *wire.MsgTx) {
 		rate := r.feeFunction.FeeRate()
-		vObserve("publishedRate", int64(rate))
+		if published == 0 {
+			vObserve("publishedRate0", int64(rate))
+		} else {
+			vObserve("publishedRate1", int64(rate))
+		}
 		c18CheckTx("published tx", raw, tx, budget)
 		vAssert(rate <= maxRate, "published tx: fee rate <= MaxFeeRate")
 		vAssert(rate <= ceiling, "published tx: fee rate <= ceiling (lesser of budget rate and MaxFeeRate)")
 		if published == 0 {
-			vReach("published-initial")
+			reach("published-initial")
 			if est.relay <= ceiling {
 				vAssert(rate >= est.relay, "published tx: first rate >= relay floor")
 			}
 		} else {
-			vReach("published-bump")
+			reach("published-bump")
 			vAssert(rate >= lastRate, "published tx: fee rate never decreases")
 		}
 		if height >= deadline-1 {
-			vReach("published-at-deadline-minus-one")
+			reach("published-at-deadline-minus-one")
 			vAssert(rate == ceiling, "published tx: at the ceiling from one block before the deadline on")
 		}
 		lastRate = rate
@@ -479,7 +491,7 @@ func c18Publish(region int, maxRejects int) {
 	// --- initial broadcast (handleInitialBroadcast without the result plumbing) ---
 	rec, err := t.initializeTx(r)
 	if err != nil {
-		vReach("initial-refused")
+		reach("initial-refused")
 		vAssert(published == 0, "nothing published when the initial tx is refused")
 		return
 	}
@@ -505,20 +517,20 @@ func c18Publish(region int, maxRejects int) {
 	t.currentHeight.Store(height)
 	increased, ierr := r.feeFunction.IncreaseFeeRate(calcCurrentConfTarget(height, deadline))
 	if height >= deadline-1 {
-		vReach("beat-at-deadline-minus-one")
+		reach("beat-at-deadline-minus-one")
 		vAssert(r.feeFunction.FeeRate() == ceiling, "fee function at the ceiling from one block before the deadline on")
 	}
 	if ierr != nil || !increased {
-		vReach("no-bump")
+		reach("no-bump")
 		vAssert(r.feeFunction.FeeRate() == lastRate, "no bump: offered rate unchanged")
 		return
 	}
 	before := published
 	out := t.createAndPublishTx(r)
 	if published > before {
-		vReach("bumped")
+		reach("bumped")
 	} else {
-		vReach("bump-refused")
+		reach("bump-refused")
 		vAssert(out.IsNone() || out.UnwrapOr(BumpResult{}).Event != TxReplaced, "no replacement reported when nothing was published")
 	}
 }
